@@ -444,4 +444,309 @@ theorem render_good (e : Char) (h : List Char) (prev : Option Char) (cur : List 
         have := ih prev (c :: cur) (by simp [hcur, Ne.symm h2]) hall (by simpa using hlast)
         simpa using this
 
+theorem lastItem_mem (e : Char) (h : List Char) (prev : Option Char) (cur : List Char) :
+    (lastDelim prev h, lastItem cur.reverse h, e) ∈ itemsE e prev cur h := by
+  induction h generalizing prev cur with
+  | nil => simp [itemsE, lastItem, lastDelim]
+  | cons c r ih =>
+    simp only [itemsE, lastItem, lastDelim]
+    split
+    · exact List.mem_cons_of_mem _ (by simpa using ih (some c) [])
+    · simpa using ih prev (c :: cur)
+
+theorem takeWhile_append_all {α} (p : α → Bool) (l m : List α) (hl : ∀ a ∈ l, p a = true) :
+    (l ++ m).takeWhile p = l ++ m.takeWhile p := by
+  induction l with
+  | nil => rfl
+  | cons a r ih =>
+    have ha : p a = true := hl a (by simp)
+    simp only [List.cons_append, List.takeWhile, ha]
+    rw [ih (fun b hb => hl b (by simp [hb]))]
+
+theorem noDelim_semi {s : List Char} (h : noDelim s) : ';' ∉ s := fun hm => (h _ hm).2 rfl
+
+theorem lastItem_append (a s : List Char) (d : Char) (hd : d = '=' ∨ d = ';') (hs : noDelim s) (seg : List Char) :
+    lastItem seg (a ++ d :: s) = s := by
+  rw [← accum_lastItem (mt := []), accum_append]
+  simp only [accum, hd, if_true]
+  rw [accum_noDelim _ hs]
+  simp
+
+theorem marker_cases (head : List Char) (hall : (itemsE ',' none [] head).all itemOK = true) :
+    (trimWs (lastItem [] head) ≠ base64Word ∧ S.splitMarker head = (head, false)) ∨
+    (∃ a s, head = a ++ ';' :: s ∧ noDelim s ∧ trimWs s = base64Word ∧ S.splitMarker head = (a, true)) := by
+  have hio := items_ok head none [] [] (by rw [headItems_eq]; exact hall)
+  simp only [List.reverse_nil, accum_lastItem] at hio
+  rcases lastDelim_cases head none with ⟨hn, hl⟩ | ⟨a, d, s, he, hd, hn, hl⟩
+  · left
+    have h1 : trimWs (lastItem [] head) ≠ base64Word := fun e => by
+      have := hio.2 e; rw [hl] at this; cases this
+    refine ⟨h1, ?_⟩
+    simp [S.splitMarker, splitLastSemi_none head (noDelim_semi hn)]
+  · have hli : lastItem [] head = s := by rw [he]; exact lastItem_append a s d hd hn []
+    rcases hd with hd | hd
+    · left
+      subst hd
+      have h1 : trimWs (lastItem [] head) ≠ base64Word := fun e => by
+        have := hio.2 e; rw [hl] at this; cases this
+      refine ⟨h1, ?_⟩
+      -- the text after the last `;` contains the `=`
+      unfold S.splitMarker S.splitLastSemi
+      have hrev : head.reverse.takeWhile (· ≠ ';') = (s.reverse ++ ['=']) ++ (a.reverse.takeWhile (· ≠ ';')) := by
+        rw [he, List.reverse_append, List.reverse_cons, List.append_assoc]
+        rw [← List.append_assoc]
+        apply takeWhile_append_all
+        intro c hc
+        rcases List.mem_append.1 hc with hc | hc
+        · have : c ≠ ';' := fun e => noDelim_semi hn (e ▸ List.mem_reverse.1 hc)
+          simpa using this
+        · have : c = '=' := by simpa using hc
+          subst this; decide
+      split
+      · rename_i mt last heq
+        dsimp only at heq
+        split at heq
+        · simp only [Option.some.injEq, Prod.mk.injEq] at heq
+          have hm : '=' ∈ last := by
+            rw [← heq.2, hrev]; simp
+          have : S.trim last ≠ "base64".toList := by
+            rw [trim_eq]; exact trimWs_ne_of_eq_mem hm
+          rw [if_neg this]
+        · cases heq
+      · rfl
+    · subst hd
+      have hsp := splitLastSemi_append a s (noDelim_semi hn)
+      by_cases hb : trimWs s = base64Word
+      · right
+        refine ⟨a, s, he, hn, hb, ?_⟩
+        have : base64Word = "base64".toList := rfl
+        simp [S.splitMarker, he, hsp, trim_eq, hb, ← this]
+      · left
+        rw [hli]
+        refine ⟨hb, ?_⟩
+        have : base64Word = "base64".toList := rfl
+        simp [S.splitMarker, he, hsp, trim_eq, hb, ← this]
+
+/-! ## the URL split -/
+
+theorem mem_takeWhile_sat {α} (p : α → Bool) (l : List α) (x : α) (h : x ∈ l.takeWhile p) : p x = true := by
+  induction l with
+  | nil => simp at h
+  | cons a r ih =>
+    simp only [List.takeWhile] at h
+    cases hp : p a
+    · simp [hp] at h
+    · simp only [hp] at h
+      rcases List.mem_cons.1 h with e | e
+      · subst e; exact hp
+      · exact ih e
+
+theorem itemOK_semi {pre : Option Char} {it : List Char} (h : itemOK (pre, it, ';') = true) :
+    trimWs it ≠ base64Word := by
+  intro e
+  have hb : base64Word = "base64".toList := rfl
+  rw [hb] at e
+  simp [itemOK, trim_eq, e] at h
+
+
+theorem splitURL_spec (u head p : List Char) (hs : S.splitURL u = some (head, p)) :
+    u = dataPrefix ++ head ++ ',' :: p ∧ ',' ∉ head := by
+  unfold S.splitURL at hs
+  split at hs
+  · rename_i hpre
+    dsimp only at hs
+    split at hs
+    · cases hs
+    · rename_i c r hdw
+      simp only [Option.some.injEq, Prod.mk.injEq] at hs
+      have hc : c = ',' := by
+        have := head_dropWhile_not (fun x => decide (x ≠ ',')) (u.drop 5) c (by rw [hdw]; rfl)
+        simpa using this
+      have hsplit := List.takeWhile_append_dropWhile (p := fun x => decide (x ≠ ',')) (l := u.drop 5)
+      rw [hdw, hs.1, hs.2, hc] at hsplit
+      constructor
+      · have h5 : u = u.take 5 ++ u.drop 5 := (List.take_append_drop 5 u).symm
+        rw [h5, hpre, ← hsplit]
+        simp [dataPrefix]
+      · intro hm
+        rw [← hs.1] at hm
+        have := mem_takeWhile_sat _ _ _ hm
+        simp at this
+  · cases hs
+
+theorem any_false_all {α} (f : α → Bool) (l : List α) (h : l.any f = false) : l.all (fun x => !f x) = true := by
+  induction l with
+  | nil => rfl
+  | cons a r ih =>
+    simp only [List.any_cons, Bool.or_eq_false_iff] at h
+    simp [h.1, ih h.2]
+
+theorem hall_of_trig (u head p : List Char) (hs : S.splitURL u = some (head, p)) (hg : S.trigB64Item u = false) :
+    (itemsE ',' none [] head).all itemOK = true := by
+  unfold S.trigB64Item at hg
+  rw [hs] at hg
+  dsimp only at hg
+  rw [headItems_eq] at hg
+  exact any_false_all _ _ hg
+
+/-! ## facts about `render` -/
+
+theorem stripWs_single {c : Char} (h : isWs c = false) : S.stripWs [c] = [c] := by
+  simp [S.stripWs, ws_eq, h]
+
+theorem stripWs_render (h seg : List Char) : S.stripWs (render seg h) = S.stripWs seg ++ S.stripWs h := by
+  induction h generalizing seg with
+  | nil => simp only [render]; rw [stripWs_trimWs]; simp [S.stripWs]
+  | cons c r ih =>
+    simp only [render]
+    split
+    · rename_i hd
+      have hw : isWs c = false := by rcases hd with e | e <;> subst e <;> decide
+      have e1 : trimWs seg ++ c :: render [] r = trimWs seg ++ ([c] ++ render [] r) := by simp
+      have e2 : c :: r = [c] ++ r := rfl
+      rw [e1, e2, stripWs_append, stripWs_append, stripWs_append, stripWs_trimWs, ih, stripWs_single hw]
+      simp [S.stripWs]
+    · rename_i hd
+      have e2 : c :: r = [c] ++ r := rfl
+      rw [ih, e2, stripWs_append, stripWs_append, List.append_assoc]
+
+theorem comma_render (h seg : List Char) (hs : ',' ∉ seg) (hh : ',' ∉ h) : ',' ∉ render seg h := by
+  induction h generalizing seg with
+  | nil => exact fun hm => hs (mem_trimWs_of_mem hm)
+  | cons c r ih =>
+    have hc : c ≠ ',' := fun e => hh (by simp [e])
+    have hr : ',' ∉ r := fun e => hh (by simp [e])
+    simp only [render]
+    split
+    · intro hm
+      rcases List.mem_append.1 hm with hm | hm
+      · exact hs (mem_trimWs_of_mem hm)
+      · rcases List.mem_cons.1 hm with e | hm
+        · exact hc e.symm
+        · exact ih [] (by simp) hr hm
+    · apply ih _ _ hr
+      intro hm
+      rcases List.mem_append.1 hm with hm | hm
+      · exact hs hm
+      · simp at hm; exact hc hm.symm
+
+def notDelimB (c : Char) : Bool := !(c = '=' || c = ';')
+
+/-- the first item of the rendered media type and what follows it -/
+theorem render_first (h seg : List Char) :
+    render seg h = trimWs (seg ++ h.takeWhile notDelimB) ++
+      (match h.dropWhile notDelimB with | [] => [] | d :: r => d :: render [] r) := by
+  induction h generalizing seg with
+  | nil => simp [render]
+  | cons c r ih =>
+    simp only [render, List.takeWhile, List.dropWhile]
+    by_cases hd : c = '=' ∨ c = ';'
+    · have : notDelimB c = false := by rcases hd with e | e <;> subst e <;> decide
+      simp [hd, this]
+    · have : notDelimB c = true := by
+        simp only [not_or] at hd
+        simp [notDelimB, hd.1, hd.2]
+      simp only [hd, if_false, this]
+      rw [ih]
+      simp
+
+theorem dropWhile_append_stop {α} (p : α → Bool) (l : List α) (x : α) (m : List α) (hx : p x = false) :
+    (l ++ x :: m).dropWhile p = l.dropWhile p ++ x :: m := by
+  induction l with
+  | nil => simp [List.dropWhile, hx]
+  | cons a r ih =>
+    simp only [List.cons_append, List.dropWhile]
+    cases p a <;> simp [ih]
+
+theorem takeWhile_append_stop' {α} (p : α → Bool) (l : List α) (x : α) (m : List α) (hx : p x = false) :
+    (l ++ x :: m).takeWhile p = l.takeWhile p := by
+  induction l with
+  | nil => simp [List.takeWhile, hx]
+  | cons a r ih =>
+    simp only [List.cons_append, List.takeWhile]
+    cases p a <;> simp [ih]
+
+theorem drop_length_takeWhile {α} (p : α → Bool) (l : List α) : l.drop (l.takeWhile p).length = l.dropWhile p := by
+  induction l with
+  | nil => rfl
+  | cons a r ih =>
+    simp only [List.takeWhile, List.dropWhile]
+    cases p a <;> simp [ih]
+
+/-- what the rest of the proof needs to know about the media type `parse.DataURI` returns (before its
+    `text/plain` default) for a header `head` -/
+structure HeadFacts (head x : List Char) : Prop where
+  strip : S.stripWs x = S.stripWs (S.splitMarker head).1
+  comma : ',' ∉ x
+  good : goodTail x
+  first : ∃ tl, x = trimWs (head.takeWhile notDelimB) ++ tl ∧
+    (tl = [] ∨ ∃ d tl', tl = d :: tl' ∧ (head.drop (head.takeWhile notDelimB).length).head? = some d)
+
+theorem parse_structure (u head p : List Char) (hs : S.splitURL u = some (head, p))
+    (hg : S.trigB64Item u = false) :
+    ∃ x, HeadFacts head x ∧
+      parseDataURI u = (if (S.splitMarker head).2 then (b64dec p).map (fun d => (finishMt x, d))
+                        else some (finishMt x, decodeURL p)) := by
+  obtain ⟨hu, hcomma⟩ := splitURL_spec u head p hs
+  have hall := hall_of_trig u head p hs hg
+  have hio := items_ok head none [] [] (by rw [headItems_eq]; exact hall)
+  simp only [List.reverse_nil] at hio
+  have hlen : 5 < u.length := by rw [hu]; simp [dataPrefix]; omega
+  have htake : u.take 5 = dataPrefix := by rw [hu]; simp [dataPrefix]
+  have hdrop : u.drop 5 = head ++ ',' :: p := by rw [hu]; simp [dataPrefix]
+  have hscan := scan_head head p hcomma [] [] false hio.1
+  have hren := accum_render head [] []
+  simp only [List.nil_append] at hren
+  simp only [accum_lastItem] at hio hscan hren
+  unfold parseDataURI
+  simp only [hlen, htake, and_self, if_true, hdrop, hscan]
+  rcases marker_cases head hall with ⟨hnb, hm⟩ | ⟨a, s, he, hn, hb, hm⟩
+  · -- not base64
+    refine ⟨render [] head, ⟨?_, ?_, ?_, ?_⟩, ?_⟩
+    · rw [hm, stripWs_render]; simp [S.stripWs]
+    · exact comma_render _ _ (by simp) hcomma
+    · exact (render_good ',' head none [] (by simp) hall (fun e => absurd e (by simpa using hnb))).1
+    · have hrf := render_first head []
+      simp only [List.nil_append] at hrf
+      refine ⟨_, hrf, ?_⟩
+      rw [drop_length_takeWhile]
+      cases hdw : head.dropWhile notDelimB with
+      | nil => left; rfl
+      | cons d r => right; exact ⟨d, _, rfl, rfl⟩
+    · simp only [hnb, if_false, hm, Bool.false_eq_true, hren]
+  · -- base64
+    have hli : lastItem [] head = s := by rw [he]; exact lastItem_append a s ';' (Or.inr rfl) hn []
+    have hacc : (accum [] [] head).1 = (accum [] [] a).1 ++ trimWs (accum [] [] a).2 ++ [';'] := by
+      rw [he, accum_append]
+      simp only [accum, or_true, if_true]
+      rw [accum_noDelim _ hn]
+    have hra := accum_render a [] []
+    simp only [List.nil_append] at hra
+    have hall_a : (itemsE ';' none [] a).all itemOK = true := by
+      rw [he, itemsE_append, List.all_append, Bool.and_eq_true] at hall
+      exact hall.1
+    have hcomma_a : ',' ∉ a := fun hm' => hcomma (by rw [he]; simp [hm'])
+    refine ⟨render [] a, ⟨?_, ?_, ?_, ?_⟩, ?_⟩
+    · rw [hm, stripWs_render]; simp [S.stripWs]
+    · exact comma_render _ _ (by simp) hcomma_a
+    · refine (render_good ';' a none [] (by simp) hall_a ?_).1
+      intro e
+      have hmem := lastItem_mem ';' a none []
+      have hok := (List.all_eq_true.1 hall_a) _ hmem
+      exact absurd e (itemOK_semi hok)
+    · have ht : head.takeWhile notDelimB = a.takeWhile notDelimB := by
+        rw [he]; exact takeWhile_append_stop' _ _ _ _ (by decide)
+      have hd : head.dropWhile notDelimB = a.dropWhile notDelimB ++ ';' :: s := by
+        rw [he]; exact dropWhile_append_stop _ _ _ _ (by decide)
+      have hrf := render_first a []
+      simp only [List.nil_append] at hrf
+      rw [← ht] at hrf
+      refine ⟨_, hrf, ?_⟩
+      rw [drop_length_takeWhile, hd]
+      cases hdw : a.dropWhile notDelimB with
+      | nil => left; rfl
+      | cons d r => right; exact ⟨d, _, rfl, rfl⟩
+    · rw [hli]
+      simp only [hb, if_true, hm, hacc, List.dropLast_concat, hra]
+
 end Verif.Proofs.DataURI
